@@ -1674,10 +1674,29 @@ class DesignSpace:
         """
         self.__check_known_variable(name)
 
-        self._variables[name].lower_bound = lower_bound
+        self.__set_bound(name, "lower_bound", lower_bound)
         self._add_norm_policy(name)
         self.__norm_data_is_computed = False
         self.__clear_normalized_current_value()
+
+    def __set_bound(
+        self, name: str, bound_name: str, bound: Number | Iterable[Number]
+    ) -> None:
+        """Set a bound of a variable, leaving it unchanged if the bound is invalid.
+
+        Args:
+            name: The name of the variable.
+            bound_name: Either ``"lower_bound"`` or ``"upper_bound"``.
+            bound: The value of the bound.
+        """
+        variable = self._variables[name]
+        previous_bound = getattr(variable, bound_name)
+        try:
+            setattr(variable, bound_name, bound)
+        except ValueError:
+            # The assignment is not rolled back when the validation fails.
+            setattr(variable, bound_name, previous_bound)
+            raise
 
     def set_upper_bound(
         self,
@@ -1695,7 +1714,7 @@ class DesignSpace:
         """
         self.__check_known_variable(name)
 
-        self._variables[name].upper_bound = upper_bound
+        self.__set_bound(name, "upper_bound", upper_bound)
         self._add_norm_policy(name)
         self.__norm_data_is_computed = False
         self.__clear_normalized_current_value()
